@@ -128,13 +128,23 @@ pub fn run_faulty(sc: &Scenario, at: u64, lie: bool, sticky: u32) -> InjOut {
         // after an injected panic the lists may hold entries the index does not know; a
         // resize can then spin in `while len > cap { remove_lru() }` — not a memory-safety
         // matter, so it is left out of the post-panic part (hangs are inconclusive anyway)
-        if out.fired.is_some() && matches!(op, Op::Resize(_)) {
+        if (out.fired.is_some() || sticky != u32::MAX) && matches!(op, Op::Resize(_)) {
+            // (the same holds for a key that never equals itself: it cannot be removed through
+            // the index, so the shrink loop of resize never terminates - a liveness matter of
+            // ill-behaved keys, not a memory-safety one)
             continue;
         }
         let r = sub.exec(&op, nv_of(i));
         if let Res::Panic(_) = r {
             if out.fired.is_none() {
                 out.fired = fired();
+                out.fired_op = op.name().to_string();
+            }
+        }
+        // a wrong Hash/Eq answer does not panic: note when it has been given
+        if out.fired.is_none() {
+            if let Some(f) = fired() {
+                out.fired = Some(f);
                 out.fired_op = op.name().to_string();
             }
         }
@@ -412,6 +422,9 @@ pub fn c03_chaotic(ctx: &Ctx, out: &mut ShardOut, budget: u64) {
         let sc = gen_scenario(&mut rng, ctx.thorough);
         // (a) NaN-like key
         let sticky = sc.uni[rng.below(sc.uni.len() as u64) as usize];
+        if std::env::var("CVH_TRACE").is_ok() {
+            eprintln!("chaotic: {} keys={} sticky={} ops={}", sc.cfg.to_text(), sc.uni.len(), sticky, ops_to_string(&sc.ops));
+        }
         let r = run_faulty(&sc, 0, false, sticky);
         runs += 1;
         out.cov.monitored += 1;
